@@ -63,6 +63,11 @@ def check_partition(ctx, rid, unit, qn, f, data="X", site_prefix=""):
     t = L["test"]
     try:
         from ..e6_algebra import compare_normal
+        from ..match import resolve_expr
+        try:
+            t = resolve_expr(cfg, w, t)        # `n = len(X)` bound once before the loop: the test is read through it
+        except Exception:
+            pass
         diff, op = compare_normal(t)
         want = to_rat(ast.parse(f"len({data}) - {j}", mode="eval").body)
         want2 = to_rat(ast.parse(f"{data}.shape[0] - {j}", mode="eval").body)
@@ -346,7 +351,9 @@ def run(pm, ctx):
                 ds = [d for d in rd[ystmt].get(name_node.id, ()) if d is not ENTRY] if isinstance(name_node, ast.Name) else []
                 return ds
             xd = defn(xb)
-            if not (len(xd) == 1 and isinstance(xd[0], ast.Assign) and norm_src(xd[0].value) == f"X[{iv}]"):
+            if not isinstance(xb, ast.Name) and norm_src(xb) == f"X[{iv}]":
+                pass            # the rows are gathered in the yield itself
+            elif not (len(xd) == 1 and isinstance(xd[0], ast.Assign) and norm_src(xd[0].value) == f"X[{iv}]"):
                 probs.append(f"X_batch is not X[{iv}]")
             ad = defn(ab)
             arr = [d for d in ad if isinstance(d, ast.Assign) and not (isinstance(d.value, ast.Constant) and d.value.value is None)]
